@@ -4,6 +4,7 @@
    range, any stale bits outside it; [u] is the answer of Rc::strong_count == 1,
    so both values cover "whatever the value's history". *)
 From Xeh Require Import Model.Prelude Model.Bits Proofs.BitsBasic Proofs.BitsProofs.
+From Xeh Require Proofs.BitsDetach.
 
 
 
@@ -162,3 +163,110 @@ Example C04_nonvacuous :
   abs (append true (mkcbs 0 4 [255; 52]%N) (mkcbs 0 4 [0]%N))
   = [true; true; true; true; false; false; false; false].
 Proof. split; [repeat split; try (cbn; lia); repeat constructor | reflexivity]. Qed.
+
+(* ---------- the representation of a detached value does not depend on the ownership flag ----------
+
+   [detach u c] keeps [c] as it is only when [u] holds (uniquely owned) AND [c] starts at bit
+   0; in every other case it copies and rebases to bit 0.  (Before the repair a uniquely owned
+   slice with a non-zero start was kept, so the start offset of the result of append / invert /
+   insert - observable through `open-bitstr offset` - depended on who else held the buffer.) *)
+
+(* the start offset of a detached value is 0 in ALL cases; the two cases of the definition *)
+Theorem C04_detach_start : forall u c,
+  cstart (detach u c) = 0 /\
+  ((u = true /\ cstart c = 0 /\ detach u c = c) \/
+   (~ (u = true /\ cstart c = 0) /\ detach u c = detach false c)).
+Proof. exact BitsDetach.detach_start. Qed.
+Check C04_detach_start : forall u c,
+  cstart (detach u c) = 0 /\
+  ((u = true /\ cstart c = 0 /\ detach u c = c) \/
+   (~ (u = true /\ cstart c = 0) /\ detach u c = detach false c)).
+
+(* start, end and bits of a detached value, in closed form: no [u] on the right-hand sides *)
+Theorem C04_detach_repr : forall u c, wf c ->
+  cstart (detach u c) = 0 /\ cend (detach u c) = clen c /\ abs (detach u c) = abs c.
+Proof. exact BitsDetach.detach_repr. Qed.
+Check C04_detach_repr : forall u c, wf c ->
+  cstart (detach u c) = 0 /\ cend (detach u c) = clen c /\ abs (detach u c) = abs c.
+
+Theorem C04_detach_ownership_independent : forall u u' c, wf c ->
+  cstart (detach u c) = cstart (detach u' c) /\
+  cend (detach u c) = cend (detach u' c) /\
+  abs (detach u c) = abs (detach u' c).
+Proof. exact BitsDetach.detach_indep. Qed.
+Check C04_detach_ownership_independent : forall u u' c, wf c ->
+  cstart (detach u c) = cstart (detach u' c) /\
+  cend (detach u c) = cend (detach u' c) /\
+  abs (detach u c) = abs (detach u' c).
+
+(* append: the result starts at bit 0 for every ownership flag (no hypothesis at all) ... *)
+Theorem C04_append_start : forall u c t,
+  cstart (append u c t) = 0 /\ cend (append u c t) = clen c + clen t.
+Proof. exact BitsDetach.append_range. Qed.
+Check C04_append_start : forall u c t,
+  cstart (append u c t) = 0 /\ cend (append u c t) = clen c + clen t.
+
+(* ... and the WHOLE result - start, end, and the backing bytes - is the same on both paths:
+   append_bits_mut cuts the buffer back to the value and clears the stale bits first *)
+Theorem C04_append_ownership_independent : forall u u' c t, wf c ->
+  append u c t = append u' c t.
+Proof. exact BitsDetach.append_indep. Qed.
+Check C04_append_ownership_independent : forall u u' c t, wf c ->
+  append u c t = append u' c t.
+
+(* insert: same *)
+Theorem C04_insert_start : forall u c i s, cstart c <= cend c ->
+  match insert u c i s with
+  | Some r => i <= clen c /\ cstart r = 0 /\ cend r = clen c + clen s
+  | None => clen c < i
+  end.
+Proof. exact BitsDetach.insert_range. Qed.
+Check C04_insert_start : forall u c i s, cstart c <= cend c ->
+  match insert u c i s with
+  | Some r => i <= clen c /\ cstart r = 0 /\ cend r = clen c + clen s
+  | None => clen c < i
+  end.
+
+Theorem C04_insert_ownership_independent : forall u u' c i s, wf c ->
+  insert u c i s = insert u' c i s.
+Proof. exact BitsDetach.insert_indep. Qed.
+Check C04_insert_ownership_independent : forall u u' c i s, wf c ->
+  insert u c i s = insert u' c i s.
+
+(* invert: start, end and bits are the same on both paths; the backing bytes beyond the
+   value are NOT (see C04_bytes_beyond_the_value_may_differ) *)
+Theorem C04_invert_start : forall u c,
+  cstart (invert u c) = 0 /\ cend (invert u c) = clen c.
+Proof. exact BitsDetach.invert_range. Qed.
+Check C04_invert_start : forall u c,
+  cstart (invert u c) = 0 /\ cend (invert u c) = clen c.
+
+Theorem C04_invert_ownership_independent : forall u u' c, wf c ->
+  cstart (invert u c) = cstart (invert u' c) /\
+  cend (invert u c) = cend (invert u' c) /\
+  abs (invert u c) = abs (invert u' c).
+Proof. exact BitsDetach.invert_indep. Qed.
+Check C04_invert_ownership_independent : forall u u' c, wf c ->
+  cstart (invert u c) = cstart (invert u' c) /\
+  cend (invert u c) = cend (invert u' c) /\
+  abs (invert u c) = abs (invert u' c).
+
+(* what still depends on [u]: the backing bytes of detach / invert outside the value.  A
+   4-bit value at the start of the byte ff is kept with its stale bits when uniquely owned,
+   copied and left-aligned otherwise; with a slack byte the buffers even differ in length. *)
+Example C04_bytes_beyond_the_value_may_differ :
+  let c := mkcbs 0 4 [255%N] in
+  wfb c = true /\ cdata (detach true c) = [255%N] /\ cdata (detach false c) = [240%N] /\
+  cdata (invert true c) = [15%N] /\ cdata (invert false c) = [0%N].
+Proof. exact BitsDetach.detach_bytes_differ. Qed.
+
+Example C04_slack_bytes_may_differ :
+  let c := mkcbs 0 4 [255; 52]%N in
+  wfb c = true /\ cdata (detach true c) = [255; 52]%N /\ cdata (detach false c) = [240%N].
+Proof. exact BitsDetach.detach_slack_differs. Qed.
+
+(* the repaired case, non-vacuously: a uniquely owned slice [4, 12) of ab cd is rebased *)
+Example C04_unique_slice_is_rebased :
+  let c := mkcbs 4 12 [171; 205]%N in
+  wfb c = true /\ detach true c = mkcbs 0 8 [188%N] /\ detach true c = detach false c.
+Proof. exact BitsDetach.detach_unique_slice_rebased. Qed.
